@@ -15,6 +15,7 @@
  * limitations under the License.
  */
 
+use std::cmp;
 use std::fmt;
 use std::fmt::Debug;
 use std::vec;
@@ -217,7 +218,8 @@ impl<'v> CheapCallStack<'v> {
     pub(crate) fn to_diagnostic_frames(&self, inlined_frames: InlinedFrames) -> CallStack {
         // The first entry is just the entire module, so skip it
         let mut frames = Vec::new();
-        for frame in &self.stack[1..self.count] {
+        // (an idle evaluator has no entry at all)
+        for frame in self.stack[..self.count].iter().skip(1) {
             frame.extend_frames(&mut frames);
         }
         inlined_frames.extend_frames(&mut frames);
@@ -226,6 +228,6 @@ impl<'v> CheapCallStack<'v> {
 
     /// List the entries on the stack as values
     pub(crate) fn to_function_values(&self) -> Vec<Value<'v>> {
-        self.stack[1..self.count].map(|x| x.function)
+        self.stack[cmp::min(1, self.count)..self.count].map(|x| x.function)
     }
 }
